@@ -1,7 +1,9 @@
 #!/bin/bash
-# Setup-time sanity: solvers present, bit-vector lemmas behind the integer bit facts hold, engine builds.
+# Setup-time sanity: solvers present, bit-vector lemmas behind the integer bit facts hold, engine builds, and the
+# engine's canary corpus behaves (correct contracts verify, wrong ones are refuted: selftest/).
 set -e
 cd "$(dirname "$0")"
 for s in z3-new cvc5 z3; do command -v $s >/dev/null || { echo "missing solver $s" >&2; exit 1; }; done
 python3 lemmas/check_bits.py
+python3 selftest/run.py
 echo "selfcheck ok"
